@@ -471,14 +471,23 @@ class DocSync:
                     logger.more("Skipped keys: {}".format(", ".join(self.skipped_keys)))
 
 
-def _ignore_excluded(exclude):
-    """Return an ``ignore`` callable for copytree that skips names matching exclude."""
+def _ignore_excluded(exclude, keep=None):
+    """Return an ``ignore`` callable for copytree that skips names matching exclude.
+
+    The paths listed in ``keep`` are never skipped.
+    """
     if not exclude:
         return None
     patterns = list(exclude) if isinstance(exclude, list) else [exclude]
+    keep = {os.path.normpath(fn) for fn in keep or ()}
 
     def _ignore(path, names):
-        return [fn for fn in names if any(re.match(p, fn) for p in patterns)]
+        return [
+            fn
+            for fn in names
+            if any(re.match(p, fn) for p in patterns)
+            and os.path.normpath(os.path.join(path, fn)) not in keep
+        ]
 
     return _ignore
 
@@ -844,10 +853,14 @@ def sync_projects(
     logger.more(f"Synchronizing {N} jobs.")
     count = ddict(int)
 
-    ignore_excluded = _ignore_excluded(exclude)
-
     def _clone_or_sync(src_job):
         """Clone a job if it does not exist, or sync if it exists."""
+        # A cloned job always gets its state point and document, like a
+        # synchronized one: the exclude patterns apply to the data files.
+        ignore_excluded = _ignore_excluded(
+            exclude,
+            keep=(src_job.fn(src_job.FN_STATE_POINT), src_job.fn(src_job.FN_DOCUMENT)),
+        )
         try:
             destination.clone(
                 src_job,
